@@ -220,6 +220,14 @@ pub fn run_c09(cfg: &Cfg, rep: &mut Report) {
                             nt += nontriv(kind, n, v) as u64;
                         }
                     }
+                    // every (channel, number) pair with a value that differs per pair
+                    if !cfg.as_c18 {
+                        for c in 1u8..15 {
+                            let v = ((n as u32 * 31 + c as u32 * 977 + cfg.seed as u32 * 7919) % (vmax as u32 + 1)) as u16;
+                            c09_case(reg, kind, name, c, n, v, rep);
+                            nt += nontriv(kind, n, v) as u64;
+                        }
+                    }
                 }
                 // all values x boundary numbers x channels {0, 15}
                 for v in (shard as u16..=vmax).step_by(nsh * nstride) {
@@ -228,6 +236,14 @@ pub fn run_c09(cfg: &Cfg, rep: &mut Report) {
                     }
                     for c in [0u8, 15] {
                         for &n in &bn {
+                            c09_case(reg, kind, name, c, n, v, rep);
+                            nt += nontriv(kind, n, v) as u64;
+                        }
+                    }
+                    // every (channel, value) pair with a number that differs per pair
+                    if !cfg.as_c18 {
+                        for c in 1u8..15 {
+                            let n = ((v as u32 * 131 + c as u32 * 3301 + cfg.seed as u32 * 104729) % 16384) as u16;
                             c09_case(reg, kind, name, c, n, v, rep);
                             nt += nontriv(kind, n, v) as u64;
                         }
